@@ -167,11 +167,18 @@ def verus_unit(unit, workdir, text, tier):
         raise Undecided('verus rejected the rendered unit %s (not a verification result): %s %s'
                         % (unit.NAME, msg, ' '.join(r['raw'][:3])))
     obls = {}
+    fn_lines = sorted(fnobl)
+    for o in clause.values():
+        prev = [ln for ln in fn_lines if ln <= o['line']]
+        o['fn_key'] = fnobl[prev[-1]]['id'][:-len('::body')] if prev and fnobl[prev[-1]]['id'].endswith('::body') else None
+    for o in fnobl.values():
+        o['fn_key'] = o['id'][:-len('::body')] if o['id'].endswith('::body') else None
     for o in list(clause.values()) + list(fnobl.values()):
         if o['id'] in obls:
             raise Undecided('duplicate obligation id %s in unit %s' % (o['id'], unit.NAME))
         obls[o['id']] = dict(o, status='discharged', backend='verus/z3', detail=[])
     unattributed = []
+    helper_errors = []
     for d in errs:
         msg = d.get('message', '')
         if 'rlimit' in msg.lower() or 'resource limit' in msg.lower():
@@ -195,13 +202,27 @@ def verus_unit(unit, workdir, text, tier):
                     hit.append(o)
         rendered = d.get('rendered') or msg
         if not hit:
+            # an error inside an auto-included helper (no contract, e.g. an index or division it cannot justify on its own) is not an
+            # obligation of anything: the helper is executed by the non-modular twins; Verus callers are tainted anyway
+            prim = [s for s in d.get('spans', []) if s.get('is_primary')] or d.get('spans', [])
+            in_helper = False
+            if prim:
+                for k in range(prim[0]['line_start'], 0, -1):
+                    if lines[k - 1].startswith('// ---- auto-included helper:'):
+                        in_helper = True
+                        break
+                    if lines[k - 1].startswith('// ---- extracted:') or lines[k - 1].startswith('// @HELPERS'):
+                        break
+            if in_helper:
+                helper_errors.append(rendered[:300])
+                continue
             unattributed.append(rendered)
         for o in hit:
             obls[o['id']]['status'] = 'failed'
             obls[o['id']]['detail'].append(rendered)
     if unattributed:
         raise Undecided('verification error outside any named obligation in unit %s: %s' % (unit.NAME, unattributed[0][:400]))
-    if vr.get('errors', 0) > 0 and not any(o['status'] == 'failed' for o in obls.values()):
+    if vr.get('errors', 0) > 0 and not helper_errors and not any(o['status'] == 'failed' for o in obls.values()):
         raise Undecided('verus reports %d error(s) but none could be mapped (unit %s)' % (vr['errors'], unit.NAME))
     # solver time per function
     ftimes = {}
@@ -211,7 +232,7 @@ def verus_unit(unit, workdir, text, tier):
                 ftimes[fb['function']] = fb['time-micros'] / 1e6
     except (KeyError, TypeError):
         pass
-    return dict(obligations=list(obls.values()), verus_verified=vr.get('verified'), verus_errors=vr.get('errors'),
+    return dict(obligations=list(obls.values()), verus_verified=vr.get('verified'), verus_errors=vr.get('errors'), helper_errors=helper_errors,
                 solver_time_s=round(sum(ftimes.values()), 3), wall_s=round(r['wall'], 2), cmd=r['cmd'],
                 file=path, slowest=sorted(ftimes.items(), key=lambda kv: -kv[1])[:3])
 
@@ -536,9 +557,16 @@ def run_unit(name, tier, repo=None, cache=None, probes=True):
             r = verus_unit(unit, workdir, text, tier)
             tainted, counts = closure_taint(unit.NAME, ctx)
             for o in r['obligations']:
-                if any(o['id'] == k or o['id'].startswith(k + '::') for k in tainted):
+                if o.get('fn_key') in tainted or any(o['id'] == k or o['id'].startswith(k + '::') for k in tainted):
                     o['tainted'] = 'the function now contains a closure without contract that the pinned tree does not have'
             r['closure_counts'] = counts
+            # functions that call an auto-included (contract-less) helper or use an opaque auto-included constant
+            if ctx.helpers:
+                hp = re.compile(r'\b(%s)\b' % '|'.join(re.escape(h) for h in ctx.helpers))
+                calling = {e.key for e in ctx.extracted if getattr(e, 'sig_final', None) and not e.key.startswith('helper:') and hp.search(e.text)}
+                for o in r['obligations']:
+                    if not o.get('tainted') and (o.get('fn_key') in calling or any(o['id'] == k or o['id'].startswith(k + '::') for k in calling)):
+                        o['tainted'] = 'the function now uses helper(s) %s that carry no contract' % ', '.join(sorted(set(hp.findall(' '.join(e.text for e in ctx.extracted if e.key in calling and (o.get('fn_key') == e.key or o['id'] == e.key or o['id'].startswith(e.key + '::')))))))
             base.update(r)
             if probes and getattr(unit, 'PROBES', True) and ctx.probe_fns:
                 base['probes'] = run_probes(unit, ctx, text, workdir)
@@ -839,12 +867,6 @@ def check_property(prop, tier, registry, seed=0):
         if suffix and o['backend'].startswith('verus') and o.get('tainted'):
             undecided.append(dict(unit=o['unit'], status='undecided', backend='verus',
                                   reason='obligation %s cannot be discharged: %s, and no failing input was found on the real code' % (o['id'], o['tainted'])))
-            continue
-        if suffix and o['backend'].startswith('verus') and unit_helpers.get(o['unit']):
-            # modular verification cannot see through a callee without contract: a failure here is not evidence of a defect
-            undecided.append(dict(unit=o['unit'], status='undecided', backend='verus',
-                                  reason='obligation %s cannot be discharged because the code now calls helper(s) %s that carry no contract, and no '
-                                         'failing input was found on the real code' % (o['id'], ', '.join(unit_helpers[o['unit']]))))
             continue
         with open(rp, 'w') as f:
             json.dump(replay, f, indent=1)
